@@ -169,6 +169,68 @@ def replay_macros(ctx, tree, behaviours, trace_to=None):
     ctx.cov["traces_validated_against_impl"] += len(work)
 
 
+# ------------------------------------------- macro table with guarded headers
+def replay_macrotable(ctx, tree, q):
+    """MacroTable.tla: #define / #undef / #include of guarded headers; the re-inclusion shortcut (guard memo +
+    macro table) must never change the emitted text or the final macro table."""
+    cfg = ctx.cfg("hash", "MacroTable.cfg", NK=2 if q else 3)
+    ctx.tlc_expect_ok("hash", "MacroTable", cfg, "include-guard shortcut changes the text of a define/undef/include history", workers=2, heap="2g")
+    ctl = ctx.tlc("hash", "MacroTable", ctx.cfg("hash", "MacroTable.cfg", StaleGuard=True), workers=2, count=False, heap="2g")
+    if ctl.ok:
+        raise Infra("sensitivity control failed: TLC accepts a guard shortcut that trusts an #undef'd guard")
+    out = os.path.join(ctx.scratch, "mt.ndjson")
+    g = ctx.tlc("hash", "MacroTable", ctx.cfg("hash", "MacroTable.cfg", NK=2 if q else 3, Emit=True), env=dict(OUT=out), workers=2, heap="2g")
+    rows = vt.read_ndjson(out)
+    cases = []
+    for r in rows:
+        cases.append((r["hist"], r["out"], r["fin"]))
+        for n in r["nx"]:
+            cases.append((r["hist"] + [n["op"]], n["out"], n["fin"]))
+    seen, uniq = set(), []
+    for c in cases:
+        k = json.dumps(c[0])
+        if k not in seen:
+            seen.add(k)
+            uniq.append(c)
+    if len(uniq) < 50:
+        raise Infra("MacroTable generator wrote only %d histories" % len(uniq))
+    uniq = vt.subsample(uniq, ctx.seed, 8 if q else 2)
+    d = ctx.tmp("mtab")
+    nk = len(uniq[0][2])
+    names = [key_name(k + 1, 5) for k in range(nk)]          # colliding names again
+    for k in range(nk):
+        open("%s/h%d.h" % (d, k + 1), "w").write("#ifndef %s\n#define %s v3\nG%d\n#endif\n" % (names[k], names[k], k + 1))
+
+    def one(t):
+        i, (hist, eout, fin) = t
+        lines = []
+        for o in hist:
+            n = names[o[1] - 1]
+            lines.append("#define %s v%d" % (n, o[2]) if o[0] == "def" else "#undef " + n if o[0] == "undef"
+                         else '#include "h%d.h"' % o[1])
+        exp = ["G%d" % k for k in eout]
+        for k in range(nk):
+            lines += ["#ifdef " + names[k], "P%d %s" % (k + 1, names[k]), "#else", "P%d undef" % (k + 1), "#endif"]
+            exp.append("P%d %s" % (k + 1, "v%d" % fin[k] if fin[k] else "undef"))
+        f = "%s/t%d.c" % (d, i)
+        open(f, "w").write("\n".join(lines) + "\n")
+        p = vt.run_limited([tree + "/chibicc", "-E", f], timeout=20)
+        got = [" ".join(l.split()) for l in p.stdout.splitlines() if l.strip() and not l.startswith("#")]
+        os.unlink(f)
+        return hist, exp, got, p.returncode, "\n".join(lines)
+
+    for hist, exp, got, rc, txt in vt.pmap(one, list(enumerate(uniq))):
+        ctx.note_case("mtab:%s" % hist, nontrivial=len(hist) >= 2)
+        if rc != 0 or got != exp:
+            kinds = "+".join(sorted(set(o[0] for o in hist)))
+            ctx.report("macrotable:%s:%s" % (kinds, "text" if [x for x in got if x.startswith("G")] != [x for x in exp if x.startswith("G")] else "table"),
+                       "history %s: expected %s got %s (rc=%s)" % (hist, exp, got, rc),
+                       case=dict(kind="mtab", hist=hist, exp=exp, got=got, text=txt))
+    ctx.cov["traces_validated_against_impl"] += len(uniq)
+    ctx.sample(dict(kind="define/undef/include history", history=uniq[len(uniq) // 2][0], expected_text=uniq[len(uniq) // 2][1]))
+    return len(uniq)
+
+
 # -------------------------------------------------------- trace validation
 def validate_traces(ctx, files, label):
     """Concatenate per-process H1 event streams and let TLC check them against DictTrace."""
@@ -285,6 +347,8 @@ def run(ctx):
     replay_macros(ctx, tree, mb, trace_to=(trd, 200 if q else 100))
     ctx.sample(dict(kind="macro history", options=macro_case(mb[-1], "cmdline")[0], file=macro_case(mb[-1], "cmdline")[1][:200]))
     ctx.phase("macro done")
+    nmt = replay_macrotable(ctx, tree, q)
+    ctx.phase("macrotable done")
     # 3. trace validation of what the compiler's own tables did
     validate_traces(ctx, sorted(glob.glob(trd + "/*.trace")), "macro-histories")
     srcs = sorted(glob.glob(tree + "/test/*.c"))
@@ -299,7 +363,7 @@ def run(ctx):
     return ctx.finish(
         rule="behaviour = one transition of HashMap.tla's complete state graph (shortest history + one more operation) or one prefix of a simulated long history, replayed on the real hashmap.c / through chibicc -E; non-trivial = at least 2 operations; distinct = distinct (collision pattern, operation sequence, replay mode)",
         exhaustive=True,
-        extra=dict(graph_transitions_replayed=len(beh), extended_transitions_replayed=len(pairs), long_history_prefixes=len(sim), macro_histories=3 * len(mb), full_table_transitions=len(full)))
+        extra=dict(graph_transitions_replayed=len(beh), extended_transitions_replayed=len(pairs), long_history_prefixes=len(sim), macro_histories=3 * len(mb), guarded_include_histories=nmt, full_table_transitions=len(full)))
 
 
 def replay(ctx, path):
